@@ -297,6 +297,31 @@ def run(ctx):
                         norms = [nm for nm, c in _norm_calls_on(f, key["d"]) if f.line_of(c) <= f.line_of(n)]
                     (ins_norm if short in ("insert", "emplace") else look_norm).append((f, n, norms))
     ctx.floor("R17.4", "_explicit_files insert/lookup sites", len(ins_norm) + len(look_norm), 2)
+    # R17.5: a command-line file that an earlier command-line file #includes must already count as the user's own
+    # when it is first reached, or its include guard keeps it from ever being read as such
+    ctx.rule("R17.5", "every command-line file is registered in _explicit_files before the first file is parsed: no _explicit_files.insert is reachable from a parse_file() call in the tools' main")
+    n5 = 0
+    for f, n, norms in ins_norm:
+        cfg = f.cfg
+        parses = [c for c in f.walk() if c.get("k") == "call" and callee_short(c) == "parse_file"]
+        if not parses:
+            continue
+        n5 += 1
+        li = cfg.locate(n)
+        bad = None
+        for pc in parses:
+            lp = cfg.locate(pc)
+            if lp is None or li is None:
+                continue
+            seen = set()
+            for s0 in cfg.blocks[lp[0]].succs:
+                if s0 is not None:
+                    seen |= cfg.reachable(s0)
+            if li[0] in seen or (li[0] == lp[0] and li[1] > lp[1]):
+                bad = pc
+        ctx.ob("R17.5", "%s|registered-before-any-parse" % f.name.split("::")[-1] if "::" in f.name else "%s|registered-before-any-parse" % (f.file.split("/")[-1] + "::" + f.name), bad is None, f.loc(n),
+               "_explicit_files.insert is %sreachable after a parse_file() call" % ("not " if bad is None else ""))
+    ctx.floor("R17.5", "tools that register command-line files", n5, 1)
     want = None
     for f, n, norms in look_norm:
         want = norms[-1] if norms else None
